@@ -17,7 +17,8 @@ use vmodel::par::par_for;
 use vmodel::{Reporter, Tier};
 
 const BASES: [&str; 6] = ["/", "/app", "app", "app/", "/app/", "/a/b"];
-const WORDS: [&str; 12] = ["en", "fr", "fr-CA", "english", "french", "e", "eng", "app", "apple", "x", "42", "fr-CAN"];
+// (also names in another letter case: a locale name is matched exactly)
+const WORDS: [&str; 17] = ["en", "fr", "fr-CA", "english", "french", "e", "eng", "app", "apple", "x", "42", "fr-CAN", "FR", "En", "fr-ca", "FR-CA", "EN"];
 
 fn base_segs(base: &str) -> Vec<&str> {
     base.split('/').filter(|s| !s.is_empty()).collect()
